@@ -1,6 +1,8 @@
 import Firebolt.Spec.Config
 import Firebolt.Generated.Source
 import Firebolt.Expected.Source
+import Firebolt.Generated.Closure
+import Firebolt.Expected.Closure
 /-!
 # C13 — Configuration is accepted exactly when it is consistent, and defaults are filled
 
@@ -413,5 +415,15 @@ theorem source_cfgValidateNode : GeneratedSrc.cfgValidateNode = ExpectedSrc.cfgV
 theorem source_cfgValidateErrorHandler : GeneratedSrc.cfgValidateErrorHandler = ExpectedSrc.cfgValidateErrorHandler := by rfl
 theorem source_cfgSetDefaults : GeneratedSrc.cfgSetDefaults = ExpectedSrc.cfgSetDefaults := by rfl
 theorem source_cfgAssignNodeDefaults : GeneratedSrc.cfgAssignNodeDefaults = ExpectedSrc.cfgAssignNodeDefaults := by rfl
+
+/-! ### the registry the validator reads: the latest registration of a name replaces the record whole -/
+theorem source_registerNodeType : GeneratedSrc.registerNodeType = ExpectedSrc.registerNodeType := by rfl
+theorem source_registerSourceType : GeneratedSrc.registerSourceType = ExpectedSrc.registerSourceType := by rfl
+theorem source_getNodeRegistration : GeneratedSrc.getNodeRegistration = ExpectedSrc.getNodeRegistration := by rfl
+theorem source_getSourceRegistration : GeneratedSrc.getSourceRegistration = ExpectedSrc.getSourceRegistration := by rfl
+
+/-! ### influence closure: the pinned functions, and every function of the repository that writes a struct field or package
+variable they read, are unchanged (digests regenerated from /repo on every run; a difference names the functions) -/
+theorem closure_unchanged : GeneratedClo.C13 = ExpectedClo.C13 := by rfl
 
 end Firebolt.C13
